@@ -586,20 +586,20 @@ func classifyHttp(c HttpCase) (bool, []string) {
 func TestHttpSubRequest(t *testing.T) {
 	pbt.Run(t, pbt.Spec[HttpCase]{
 		ID: "C13", Name: "http-flv-ts-request", Gen: genHttpCase("sub"), Run: runHttpSub, Classify: classifyHttp, Isolate: true,
-		Quick: 300, Thorough: 3000,
+		Quick: 300, Thorough: 1500,
 	})
 }
 
 func TestHlsRequest(t *testing.T) {
 	pbt.Run(t, pbt.Spec[HttpCase]{
 		ID: "C13", Name: "hls-request", Gen: genHttpCase("hls"), Run: runHls, Classify: classifyHttp, Isolate: true,
-		Quick: 250, Thorough: 2500,
+		Quick: 250, Thorough: 1500,
 	})
 }
 
 func TestHttpApiRequest(t *testing.T) {
 	pbt.Run(t, pbt.Spec[HttpCase]{
 		ID: "C13", Name: "http-api-request", Gen: genHttpCase("api"), Run: runApi, Classify: classifyHttp, Isolate: true,
-		Quick: 1500, Thorough: 15000,
+		Quick: 1500, Thorough: 4000,
 	})
 }
